@@ -360,6 +360,22 @@ func (vc *VC) run() (err error) {
 		headerLoop[li.header] = li
 	}
 	order := vc.topoOrder(back)
+	// reachability in the cut CFG: facts recorded in a block that cannot reach the block of an
+	// obligation are irrelevant to it (its reachability literal is false there) and are left out
+	vc.reach = map[*ssa.BasicBlock]map[*ssa.BasicBlock]bool{}
+	for i := len(order) - 1; i >= 0; i-- {
+		b := order[i]
+		m := map[*ssa.BasicBlock]bool{b: true}
+		for _, s := range b.Succs {
+			if back[[2]int{b.Index, s.Index}] {
+				continue
+			}
+			for k := range vc.reach[s] {
+				m[k] = true
+			}
+		}
+		vc.reach[b] = m
+	}
 
 	// entry state and parameters
 	vc.entry = vc.newState()
